@@ -73,6 +73,11 @@ pub struct InjSc {
     /// an operation that adds no edge, executed at EVERY step (the traversal must still end)
     #[serde(default)]
     pub every_step: Option<InjOp>,
+    /// the container holds the ONLY handle of every node but the host's; the script's `GRemove`
+    /// entries isolate a node and remove it from the container, so that it is released while
+    /// the loop or traversal is still running
+    #[serde(default)]
+    pub sole: bool,
 }
 
 pub struct Inject;
@@ -632,12 +637,175 @@ fn run_host<F: Flavour>(sc: &InjSc, with_script: bool, stats: &mut Stats) -> (Op
     }
 }
 
+/// The host runs on a graph whose nodes (all but the host's own) are held by the container alone;
+/// the loop body fetches a node from the container, isolates it, removes it and lets go of it.
+fn run_sole<F: Flavour>(sc: &InjSc, stats: &mut Stats) -> Option<Violation> {
+    let hu = match &sc.host {
+        Host::IterOut { u } | Host::IterIn { u } | Host::IterInto { u } | Host::Adapted { u, .. } => *u,
+        Host::Search { root, .. } => *root,
+        Host::Dot => return None,
+    };
+    let world = World::<F>::new(&sc.prios, true);
+    world.seed_edges(&sc.initial);
+    let mut model = Model::new(F::DIRECTED, sc.prios.len());
+    for (u, v, e) in &sc.initial {
+        model.edges.push(MEdge { val: *e, u: *u, v: *v });
+    }
+    let World { nodes, graph } = world;
+    let root = nodes[hu].clone();
+    drop(nodes);
+    let graph = RefCell::new(graph.expect("container"));
+    let model = RefCell::new(model);
+    let removed: RefCell<BTreeSet<usize>> = RefCell::new(BTreeSet::new());
+    let step = RefCell::new(0usize);
+    let next = RefCell::new(0usize);
+    let verdict: RefCell<Option<Violation>> = RefCell::new(None);
+    let bound = 16 * (2 * sc.initial.len() + sc.prios.len()) + 64;
+    let on_yield = |a: usize, b: usize, e: u64| -> bool {
+        let i = *step.borrow();
+        *step.borrow_mut() += 1;
+        if i > bound {
+            *verdict.borrow_mut() = Some(Violation::new(
+                "non-termination",
+                format!("{:?} is still running after {i} steps although its body only removes nodes (bound {bound})", sc.host),
+            ));
+            return false;
+        }
+        if !model.borrow().edges.iter().any(|x| x.val == e && ((x.u == a && x.v == b) || (x.u == b && x.v == a))) {
+            *verdict.borrow_mut() = Some(Violation::new(
+                "yielded-dead-edge",
+                format!("step {i} of {:?} yielded ({a},{b},{e}), which does not exist at that moment (nodes removed so far: {:?})", sc.host, removed.borrow()),
+            ));
+            return false;
+        }
+        let k = sc.fire.get(i).copied().unwrap_or(0);
+        for _ in 0..k {
+            let j = *next.borrow();
+            *next.borrow_mut() += 1;
+            let Some(InjOp::GRemove { u }) = sc.script.get(j) else { continue };
+            let key = resolve(*u, (a, b));
+            if key == hu || key >= sc.prios.len() || removed.borrow().contains(&key) {
+                continue;
+            }
+            let h = F::g_get(&graph.borrow(), key);
+            if let Some(h) = h {
+                F::isolate(&h);
+                drop(h);
+                let r = F::g_remove(&mut graph.borrow_mut(), key);
+                drop(r);
+                let _ = model.borrow_mut().apply(&Op::Isolate { u: key, h: Prov::Own }, &Obs::Unit);
+                removed.borrow_mut().insert(key);
+                stats_inc_sole();
+            }
+        }
+        true
+    };
+    let cut = || std::panic::resume_unwind(Box::new(SimAbort("cut".into())));
+    let res = caught(|| match &sc.host {
+        Host::IterOut { .. } => F::for_out(&root, &mut |a, b, e| on_yield(F::key(&a), F::key(&b), e.0)),
+        Host::IterIn { .. } => F::for_in(&root, &mut |a, b, e| on_yield(F::key(&a), F::key(&b), e.0)),
+        Host::IterInto { .. } => F::for_into(&root, &mut |a, b, e| on_yield(F::key(&a), F::key(&b), e.0)),
+        Host::Adapted { dir, style, .. } => F::for_adapted(&root, *dir, *style, &mut |a, b, e| on_yield(F::key(&a), F::key(&b), e.0)),
+        Host::Search { spec, .. } => {
+            let mask = spec.mask;
+            let out = F::search(&root, spec, &mut |a, b, e| {
+                if !on_yield(F::key(a), F::key(b), e.0) {
+                    cut();
+                }
+                mask & (1 << (e.0 % 16)) == 0
+            });
+            // results keep the nodes they mention alive and usable, released from the container or not
+            match out {
+                SearchOut::Node(Some(n)) => {
+                    let _ = (F::key(&n), F::out_degree(&n));
+                }
+                SearchOut::Path(Some(p)) | SearchOut::Edges(p) => {
+                    for (a, b, _) in &p {
+                        let _ = (F::key(a), F::out_degree(b));
+                    }
+                }
+                SearchOut::Nodes(v) => {
+                    for n in &v {
+                        let _ = (F::key(n), F::out_degree(n));
+                    }
+                }
+                _ => {}
+            }
+        }
+        Host::Dot => {}
+    });
+    stats.add("nodes_released_inside_a_running_loop", SOLE_REMOVED.with(|c| c.replace(0)));
+    if let Some(v) = verdict.borrow_mut().take() {
+        return Some(v);
+    }
+    match res {
+        Caught::Ok(()) => {}
+        Caught::Panic(m) | Caught::Abort(m) => {
+            if removed.borrow().is_empty() {
+                stats.inc("host_fails_without_injection_not_a_C20_verdict");
+                return None;
+            }
+            return Some(Violation::new(
+                "panic-in-loop",
+                format!(
+                    "{:?} on a graph whose nodes only the container holds, with the body isolating and removing nodes {:?}: {m}",
+                    sc.host,
+                    removed.borrow()
+                ),
+            ));
+        }
+    }
+    // what is left is the model's graph
+    let g = graph.borrow();
+    let m = model.borrow();
+    let check = caught(|| {
+        for (k, n) in F::g_iter(&g) {
+            let (out, inn) = World::<F>::lists_of(&n);
+            let ok = if F::DIRECTED {
+                out == m.out(k) && inn == m.inn(k)
+            } else {
+                let mut a = out.clone();
+                a.sort();
+                a == m.adj(k)
+            };
+            if !ok {
+                return Err(format!("node {k} lists out {out:?} in {inn:?}"));
+            }
+        }
+        Ok(())
+    });
+    match check {
+        Caught::Ok(Ok(())) => None,
+        Caught::Ok(Err(e)) => Some(Violation::new("effect-after-loop", format!("after {:?} whose body removed {:?}: {e}", sc.host, removed.borrow()))),
+        Caught::Panic(e) | Caught::Abort(e) => Some(Violation::new("effect-after-loop", format!("after {:?}: the graph cannot be read back: {e}", sc.host))),
+    }
+}
+
+thread_local! {
+    static SOLE_REMOVED: std::cell::Cell<u64> = const { std::cell::Cell::new(0) };
+}
+fn stats_inc_sole() {
+    SOLE_REMOVED.with(|c| c.set(c.get() + 1));
+}
+
 fn run<F: Flavour>(sc: &InjSc, stats: &mut Stats) -> Option<Violation> {
     hashseam::set_seed(sc.hash_seed);
     let solo = Solo::new();
     if F::SYNC {
         solo.install();
         solo.set_budget(2_000_000);
+    }
+    if sc.sole {
+        stats.inc("runs_with_nodes_held_by_the_container_alone");
+        let out = run_sole::<F>(sc, stats);
+        if F::SYNC {
+            Solo::uninstall();
+            if let Some(h) = solo.harness_error() {
+                eprintln!("HARNESS-ERROR: {h}");
+                std::process::exit(2);
+            }
+        }
+        return out;
     }
     let (v, host_failure) = run_host::<F>(sc, true, stats);
     let mut out = v;
@@ -849,16 +1017,41 @@ impl Engine for Inject {
         } else {
             None
         };
+        // one run in 12: the container holds the only handle of every node but the host's and
+        // the body releases nodes (isolate, remove from the container, let go)
+        let sole = !matches!(host, Host::Dot) && rng.chance(1, 12);
+        let (script, fire, every_step) = if sole {
+            let k = rng.range(1, 4);
+            let script: Vec<InjOp> = (0..k)
+                .map(|_| InjOp::GRemove {
+                    u: match rng.below(10) {
+                        0..=5 => T::YDst,
+                        6..=7 => T::YSrc,
+                        _ => T::Abs(rng.below(n)),
+                    },
+                })
+                .collect();
+            let horizon = rng.range(1, est.max(1).min(6));
+            let mut fire = vec![0u8; horizon];
+            for _ in 0..script.len() {
+                let i = rng.below(horizon);
+                fire[i] += 1;
+            }
+            (script, fire, None)
+        } else {
+            (script, fire, every_step)
+        };
         InjSc {
             flavour,
             prios,
-            in_graph,
+            in_graph: in_graph || sole,
             hash_seed: rng.next_u64(),
             initial,
             host,
             script,
             fire,
             every_step,
+            sole,
         }
     }
 
